@@ -1,6 +1,6 @@
 (* Props/C08.v — Query meaning is invariant under spelling; string literals are opaque.
    ONLY statements: each closed by [exact <lemma>] with Print Assumptions beneath. *)
-From RBQL Require Import Base Parser Parser_Proofs Parser_Combine_Proofs.
+From RBQL Require Import Base Parser Parser_Proofs Parser_Combine_Proofs Parser_Spelling_Proofs.
 Local Open Scope N_scope.
 
 (* C08_cleanup_invariant. A query text is a list of physical lines (each without LF) joined by LF.
@@ -96,3 +96,41 @@ Proof.
   destruct combine_needs_hypothesis as [_ [E1 E2]]. rewrite E1, E2. vm_compute. discriminate.
 Qed.
 Print Assumptions C08_combine_needs_hypothesis.
+
+(* C08_token_spelling - full statement, NOT proved in full (kept visible as the goal):
+     forall q sigma, (no expression word of q is a statement keyword) ->
+       separate_actions fl false (render_tokens sigma q) = Ok (normalise q)
+   for every spelling choice sigma = (case of every keyword letter, permutation of the clauses after SELECT / UPDATE,
+   TOP vs LIMIT, JOIN vs INNER JOIN, LEFT vs LEFT OUTER JOIN, FROM a, UPDATE a SET).
+   What IS proved (Parser_Spelling_Proofs.v) is its keyword-letter-case component, in a stronger form - the ASCII case of
+   ANY letter of the text, keyword or not, at character level, no hypothesis on the words:
+     C08_locate_case_invariant      the statements found and their positions are the same;
+     C08_case_spelling_partial      separate_actions gives the same error tag, or action records with the same
+                                    statements, TOP value, DISTINCT [COUNT] flags, ASC/DESC flag and join spelling whose
+                                    clause texts are equal up to the same letter case - hence identical when only
+                                    keywords were respelled. (The WITH modifier is excluded: the code matches its name
+                                    case-sensitively, [a-z].)
+   Missing: clause-order permutation and the interchangeable spellings; they are validated by the correspondence runs
+   (metamorphic public-path check and model tie on every generated spelling) only. *)
+Theorem C08_locate_case_invariant : forall (fl : lang) (with_from : bool) (s s' : str), case_rel s s' ->
+  locate_statements fl with_from s = locate_statements fl with_from s'.
+Proof. exact locate_case_invariant. Qed.
+Print Assumptions C08_locate_case_invariant.
+
+Theorem C08_case_spelling_partial : forall (fl : lang) (with_from : bool) (s s' : str), case_rel s s' ->
+  with_match fl (strip_sp s) = None -> with_match fl (strip_sp s') = None ->
+  res_rel (separate_actions fl with_from s) (separate_actions fl with_from s').
+Proof. exact separate_actions_case. Qed.
+Print Assumptions C08_case_spelling_partial.
+
+(* non-vacuity: SELECT a1 WHERE a2 == b1 ORDER BY a1 LEFT JOIN b ON a1 == b1  and a mixed-case respelling of it *)
+Example C08_case_spelling_nonvacuous :
+  case_rel ex_case1 ex_case2 /\ ex_case1 <> ex_case2 /\
+  with_match LPy (strip_sp ex_case1) = None /\ with_match LPy (strip_sp ex_case2) = None /\
+  locate_statements LPy false ex_case2 = Ok [(0, 6, SELECT); (9, 15, WHERE); (24, 33, ORDER_BY); (36, 46, LEFT_JOIN)]%nat /\
+  exists a a', separate_actions LPy false ex_case1 = Ok a /\ separate_actions LPy false ex_case2 = Ok a'.
+Proof.
+  destruct locate_case_example as [H1 [H2 H3]]. destruct separate_actions_case_example as [_ [W1 [W2 [a [a' [E1 [E2 _]]]]]]].
+  repeat split; try assumption. exists a, a'. split; assumption.
+Qed.
+Print Assumptions C08_case_spelling_nonvacuous.
